@@ -26,6 +26,7 @@ EXPLANATION = (
     " Also decided (rules added after the fifth blind round): (R2.7) every element typedlist._pack writes is the packed form of a value of the element type."
     " Rules added after the sixth blind round: (R2.8) RecordDescriptor._unpack hands name and field list to the constructor unchanged; (R2.9) no _pack method of a field type stores an attribute on the value it packs."
     " Rules added after the seventh blind round: (R2.10 = R3.8 of C03) GroupedRecord.__init__ appends a member and its descriptor as a pair, so the descriptor tuple a grouped record is packed with describes exactly its members."
+    " Taken over at the end of the session: (R2.11 = R1.6 of C01) frame = length prefix of the body + exactly that body; (R2.12 = R5.9 of C05) the generated decoder never truth-tests a field value."
 )
 RULE_SUMMARY = "instances: format facts resolved at their points of use; non-trivial = required folding through names/partials or a dataflow walk"
 
@@ -362,6 +363,8 @@ def run(ctx):
 
     # ------------------------------------------------------------------ R2.10 (sibling rule) every member of a group gets its descriptor frame
     ctx.import_rule("C03", "R3.8", "R2.10", "the bytes of a grouped record reference the identifier of every member: each member's descriptor is in the list the packer emits frames from")
+    ctx.import_rule("C01", "R1.6", "R2.11", "the frame is the 4-byte big-endian length of the body followed by exactly that body: the same statement as the writer side of the published format")
+    ctx.import_rule("C05", "R5.9", "R2.12", "a conforming stream is read back as the records it encodes: the generated decoder never truth-tests a field value, so 0, '' and False are not read as None")
 
 
 
